@@ -453,4 +453,77 @@ theorem rcbDirection_deterministic (t : M9 ℝ) (seed : Int) (twod : Bool) :
 
 end Cut
 
+/-! ### the two positions against the target ratio -/
+
+/-- libm and the `(REF_LONG)` cast (truncation toward zero) over ℝ -/
+@[reducible] noncomputable def floorRcb : RcbScalar ℝ where
+  sin := Real.sin
+  cos := Real.cos
+  acos := Real.arccos
+  truncInt := fun x => if 0 ≤ x then ⌊x⌋ else ⌈x⌉
+
+/-- the positions `(REF_LONG)(total*ratio0)`, `(REF_LONG)(total*ratio1)` for a non-negative seed, `npart ≥ 2` and `N ≥ 0`
+    records: `0 ≤ p0 ≤ p1 ≤ N`, and the target size `p0 + (N-1-p1)` of half 0 lies strictly between `N*ratio - 2` and
+    `N*ratio`, `ratio = (npart/2)/npart` -/
+theorem cutPos_target (seed : Int) (hs : 0 ≤ seed) (npart : Nat) (h2 : 2 ≤ npart) (N : Int) (hN : 0 ≤ N) :
+    let p := @cutPos ℝ _ floorRcb seed npart N
+    let r : ℝ := ((npart / 2 : Nat) : ℝ) / (npart : ℝ)
+    0 ≤ p.1 ∧ p.1 ≤ p.2 ∧ p.2 ≤ N
+      ∧ (N : ℝ) * r - 2 < ((p.1 + (N - 1 - p.2) : Int) : ℝ)
+      ∧ ((p.1 + (N - 1 - p.2) : Int) : ℝ) < (N : ℝ) * r := by
+  intro p r
+  have hnp : (0 : ℝ) < (npart : ℝ) := by exact_mod_cast (by omega : 0 < npart)
+  have hr0 : 0 ≤ r := by positivity
+  have hr1 : r ≤ 1 / 2 := by
+    show ((npart / 2 : Nat) : ℝ) / (npart : ℝ) ≤ 1 / 2
+    rw [div_le_iff₀ hnp]
+    have : ((npart / 2 : Nat) : ℝ) * 2 ≤ (npart : ℝ) := by exact_mod_cast Nat.div_mul_le_self npart 2
+    linarith
+  have hm0 : 0 ≤ Int.tmod seed 3 := Int.tmod_nonneg 3 hs
+  have hm2 : Int.tmod seed 3 < 3 := Int.tmod_lt_of_pos seed (by decide)
+  set s : ℝ := ((Int.tmod seed 3 : Int) : ℝ) / 3 with hsdef
+  have hs0 : 0 ≤ s := by
+    have : (0 : ℝ) ≤ ((Int.tmod seed 3 : Int) : ℝ) := by exact_mod_cast hm0
+    positivity
+  have hs1 : s ≤ 1 := by
+    have : ((Int.tmod seed 3 : Int) : ℝ) ≤ 3 := by exact_mod_cast hm2.le
+    rw [hsdef, div_le_one (by norm_num)]
+    exact this
+  have hNr : (0 : ℝ) ≤ (N : ℝ) := by exact_mod_cast hN
+  have hrs : r * s ≤ r := mul_le_of_le_one_right hr0 hs1
+  have hrs0 : 0 ≤ r * s := mul_nonneg hr0 hs0
+  have hp : p = (⌊(N : ℝ) * (r * s)⌋, ⌊(N : ℝ) * (1 - (r - r * s))⌋) := by
+    show @cutPos ℝ _ floorRcb seed npart N = _
+    unfold cutPos ratioShift
+    simp only [splitRatio_real npart (by omega), mul_eq, sub_eq, div_eq, ofInt_eq]
+    have e1 : (0 : ℝ) ≤ (N : ℝ) * (r * s) := by positivity
+    have e2 : (0 : ℝ) ≤ (N : ℝ) * (1 - (r - r * s)) := by
+      have : 0 ≤ 1 - (r - r * s) := by linarith
+      positivity
+    have c3 : ((3 : Int) : ℝ) = 3 := by norm_num
+    have c1 : ((1 : Int) : ℝ) = 1 := by norm_num
+    simp only [c3, c1]
+    show (if 0 ≤ (N : ℝ) * (r * s) then ⌊(N : ℝ) * (r * s)⌋ else ⌈(N : ℝ) * (r * s)⌉,
+      if 0 ≤ (N : ℝ) * (1 - (r - r * s)) then ⌊(N : ℝ) * (1 - (r - r * s))⌋ else ⌈(N : ℝ) * (1 - (r - r * s))⌉) = _
+    rw [if_pos e1, if_pos e2]
+  rw [hp]
+  simp only []
+  have a1 := Int.floor_le ((N : ℝ) * (r * s))
+  have a2 := Int.lt_floor_add_one ((N : ℝ) * (r * s))
+  have b1 := Int.floor_le ((N : ℝ) * (1 - (r - r * s)))
+  have b2 := Int.lt_floor_add_one ((N : ℝ) * (1 - (r - r * s)))
+  refine ⟨?_, ?_, ?_, ?_, ?_⟩
+  · exact Int.floor_nonneg.mpr (by positivity)
+  · apply Int.floor_le_floor
+    apply mul_le_mul_of_nonneg_left _ hNr
+    linarith
+  · have h1 : 1 - (r - r * s) ≤ 1 := by linarith
+    have hle : (N : ℝ) * (1 - (r - r * s)) ≤ (N : ℝ) := mul_le_of_le_one_right hNr h1
+    have := Int.floor_le_floor hle
+    rwa [Int.floor_intCast] at this
+  · push_cast
+    nlinarith
+  · push_cast
+    nlinarith
+
 end Refine.Lemmas.Rcb
